@@ -53,6 +53,9 @@ type dchunk struct {
 
 var staleNaN = math.Float64frombits(value.StaleNaN)
 
+// entryDownsampleRaw counts level-1 calls that went through the exported DownsampleRaw.
+var entryDownsampleRaw int
+
 func parseSamples(s string) (ts []int64, vs []float64, ok bool) {
 	if s == "-" {
 		return nil, nil, true
@@ -209,6 +212,12 @@ func decode(metas []chunks.Meta) ([]dchunk, []*downsample.AggrChunk) {
 
 func rawLevel(mode string, r int64, nc int, ts []int64, vs []float64) ([]chunks.Meta, string) {
 	data := downsample.VerifSamples(ts, vs)
+	// "man" with the numChunks the real entry point would compute itself: go through the real entry
+	// point DownsampleRaw (its own wiring of aggregator and batch function), not through the loop hook
+	if mode == "man" && len(ts) > 0 && r > 0 && downsample.VerifTargetChunkCount(ts[0], ts[len(ts)-1], 60000, r, len(ts)) == nc {
+		entryDownsampleRaw++
+		return downsample.DownsampleRaw(data, r), ""
+	}
 	if mode == "auto" {
 		if len(ts) > 0 {
 			if want := downsample.VerifTargetChunkCount(ts[0], ts[len(ts)-1], 60000, r, len(ts)); want != nc {
